@@ -37,7 +37,7 @@ PROPS["C14"] = dict(
                "dividends >= 2^32 for the share bound. Trusted: encoder, SMT solvers' FP theory (cvc5), math.Round = roundToIntegral RNA, float64(uint) = to_fp_unsigned RNE, uint(float) = fp.to_ubv RTZ.",
     technique="symbolic execution of go/ssa; Int encoding (Fair), uninterpreted floats (Rate structure), exact SMT floating point with cvc5 (Rate values)",
     bounds=dict(quick="Fair/Rate-structure n in 1..4 symbolic priorities, E=1 foreign key; equivalence n in 1..4; L1 on lists [3 2 1],[2 1],[1] with D<2^16; L2 on [3 2 1],[70 20 10],[7 5 3 1] with D<2^32; exact Rate on [3 2 1],[7 5 3 1] with D<2^6",
-                thorough="n in 1..8, E=2; equivalence n<=6; L1 D<2^32 on [3 2 1],[2 1],[1],[4 3 2 1]; L2 on 8 lists; exact Rate D<2^10"),
+                thorough="n in 1..8, E=2; equivalence n<=6; L1 D<2^32 on [3 2 1],[2 1],[1]; L2 on 8 lists; exact Rate D<2^10 (share obligations on optionally pre-filled maps)"),
     assumptions=["float semantics: SMT-LIB FloatingPoint 11 53, RNE; math.Round = roundToIntegral RNA; conversions RNE/RTZ",
                  "maps are association lists with pairwise-distinct symbolic keys; map iteration order irrelevant to Fair/Rate (they index by the list)"],
     groups=[
@@ -75,7 +75,7 @@ PROPS["C18"] = dict(
     level_note="Bounds: n<=3 (Fair), n<=2 (Rate structure), max<=6 quick / 12 thorough for the PickUp loops. Outside: the numeric value of isDistributionSuitable's percentage test "
                "(only its structure: suitable => non-fatal; monotonicity in the limit is covered for n=1), n>4. v1 utils is a line-for-line copy and is checked by the v1 group.",
     technique="symbolic execution of go/ssa; Int encoding; uninterpreted floats with exact-float refinement (cvc5); contract substitution with an uninterpreted predicate",
-    bounds=dict(quick="Fair n<=3 all permutations, q in uint64; Rate-UF n<=2; PickUp max<=6", thorough="Fair n<=4; Rate exact on [3 2 1],[7 5 3 1],[2 1] with q<16; PickUp max<=12"),
+    bounds=dict(quick="Fair n<=3 all permutations, q in uint64; Rate-UF n<=2; PickUp max<=6; non-fatal => accepted: Fair n<=3, Rate n<=2; both modules", thorough="Fair n<=4; Rate exact on [3 2 1],[7 5 3 1],[2 1] with q<16; PickUp max<=12; non-fatal => accepted: Rate n<=3"),
     assumptions=["a sat answer under uninterpreted floats is only a candidate and is refined under exact floats before it is reported",
                  "PickUp loops: max below 2^64-1 (the loop counter would wrap otherwise; outside the stated range 0..300)"],
     groups=[
@@ -178,7 +178,7 @@ for _pid in ("C04", "C12"):
                    ">= (b-a-1) Intervals apart (these imply the two stated count formulas by the 3-line derivation in DESIGN 7 C04); pass-through, close, pause counts for C12.",
         level_note="Bound: M elements (quick <=5, thorough <=7), buffered (prefilled) and unbuffered (parked producer) input. Clock readings < 2^62 ns. Trusted: engine, time model.",
         technique="symbolic execution of go/ssa with a symbolic clock; Int-encoded SMT queries (z3)",
-        bounds=dict(quick="M in 0..5", thorough="M in 0..7"),
+        bounds=dict(quick="M in 0..5 elements; three arrival patterns (all up-front, eager unbuffered writers, bursts after stalls)", thorough="M in 0..6"),
         assumptions=["time model of DESIGN 3.6: lower bounds only (arbitrary delays anywhere); Sleep(d) advances by >= d",
                      "count formulas follow from the per-batch facts: count <= (k+1)*Q and t >= k*I  =>  count <= Q*(floor(t/I)+1); window: (j-i-1)*I <= W => count <= Q*(floor(W/I)+2)"],
         groups=[dict(mod="v2", pkg="limit", overlay="harness/v2/limit", harness="^VerifC04_limit_run", params=_LIM, timeout=dict(quick=120000, thorough=600000))])
@@ -312,7 +312,7 @@ PROPS["C17"] = dict(
     technique="symbolic execution of go/ssa: step obligations + bounded command runs; Int-encoded SMT (z3)",
     assumptions=_PRIO_ASSUME + ["the strategic division in v1 is unchecked: the divider is assumed to obey the sum rule there (property quantifies over sum-preserving dividers)",
                                 "'take effect on return' = the rendezvous on the unbuffered command channel followed in the same goroutine by addInput/removeInput before any other channel operation (observed on the event trace)"],
-    bounds=dict(quick="steps n<=3; command runs n=1, 2 commands", thorough="steps n<=4; command runs n<=2"),
+    bounds=dict(quick="steps n<=3; loop with 2 commands (n=1); run from New: 2 inputs, H=2, <=2 items each, 2 commands issued at arbitrary moments", thorough="steps n<=4; loop with 3 commands; run from New with H<=3"),
     groups=_V1_C17 + [_V1_MAIN])
 
 PROPS["C19"] = dict(
